@@ -28,6 +28,10 @@ package main
 // an opaque element type is a Lean list, struct fields of the elements are accessor parameters (`FieldAcc`), and a
 // few idioms of `append`, `make`, `len`, `slices.ContainsFunc`, `slices.DeleteFunc`, one filtering `for range` loop
 // and the nil initialisation are translated — see "slice forms" below for the rules that keep this exact.
+//
+// Targets with `Bytes` (the BLS bit-field, Props/C19Gen) add a slice of bytes as a `List Nat`: indexing and indexed
+// (compound) assignment, `&`, `|`, `<<` on bytes, `append(X, make([]byte, n)...)`, calls of methods of the same receiver
+// and of a package-level function translated by main.go — see "byte forms" below.
 
 import (
 	"fmt"
@@ -37,6 +41,7 @@ import (
 	"go/token"
 	"os"
 	"path/filepath"
+	"strconv"
 	"strings"
 )
 
@@ -66,6 +71,24 @@ type methodTarget struct {
 	// extensions for slices as values (proof agent S17: the timeout collector); see "slice forms" below
 	Elem     map[string]string // Lean list type -> Lean element type ("List T" -> "T"); non-nil switches the slice forms on
 	FieldAcc map[string]string // "<T>.<GoField>" -> Lean type: struct field read `x.F` of an opaque value x : T, a parameter `T_F : T → R`
+	// extensions for a slice of bytes (proof agent S18: the BLS bit-field); see "byte forms" below
+	Bytes   bool             // bytes are Lean `Nat`s below 256, `[]byte` is `List Nat`; switches the byte forms on
+	PkgFn   map[string]pkgFn // package-level functions of the same file translated elsewhere (Gen/<…>.lean), callable as `a, b := f(x)`
+	Imports []string         // Lean modules the generated file imports
+}
+
+// pkgFn: a package-level function translated by the first translator (main.go `targets`)
+type pkgFn struct {
+	Lean string   // its Lean name
+	Args []string // Lean types of its parameters
+	Res  []string // Lean types of its (two) results
+}
+
+// sibSig: what a call of a method of the same receiver needs to know about the callee (byte forms)
+type sibSig struct {
+	args []string // Lean types of the parameters
+	res  []string // Lean types of the results (empty: none)
+	ptr  bool     // pointer receiver: the callee's new field values replace the caller's
 }
 
 var methodTargets = []methodTarget{
@@ -87,6 +110,14 @@ var methodTargets = []methodTarget{
 		FieldAcc: map[string]string{"T.View": "Int", "T.ID": "Int"},
 		ExtFn:    map[string][]string{"config.QuorumSize": {"Int"}},
 		Params:   []string{"(T_View : T → Int)", "(T_ID : T → Int)", "(config_QuorumSize : Int)"}},
+	{File: "security/crypto/bitfield.go", Recv: "Bitfield", Fields: []string{"data", "len"},
+		Methods: []string{"extend", "isSet", "set", "Add", "Contains", "Len", "Bytes"}, Out: "BitfieldMethods",
+		Types:   map[string]string{"[]byte": "List Nat", "byte": "Nat", "hotstuff.ID": "Int"},
+		Elem:    map[string]string{"List Nat": "Nat"},
+		Bytes:   true,
+		PkgFn:   map[string]pkgFn{"index": {Lean: "HsVerif.Gen.index", Args: []string{"Int"}, Res: []string{"Int", "Int"}}},
+		Imports: []string{"HsVerif.Gen.Bitfield"},
+		Params:  []string{}},
 }
 
 // rulesTarget: CommitRule / VoteRule (and the helper qcRef where the ruleset has one) of a consensus ruleset.
@@ -135,6 +166,9 @@ type mtr struct {
 	cur       *mctx               // context of the statement being translated (slice forms: closure parameters must not capture)
 	slicesPkg bool                // the file imports the standard package "slices" under its own name
 	mutOK     bool                // inside `X = append(X, …)` / `X = slices.DeleteFunc(X, …)` (slice forms)
+	sibB      map[string]sibSig   // byte forms: methods of the target translated so far
+	ptrRecv   bool                // byte forms: the method being translated has a pointer receiver
+	file      *ast.File           // byte forms: the parsed file (signatures of package-level functions)
 }
 
 // id: the Lean name of a Go variable
@@ -328,6 +362,11 @@ func (t *mtr) expr(e ast.Expr) string {
 			t.checks = append(t.checks, fmt.Sprintf("(decide (0 ≤ %s ∧ %s < (%s.length : Int)))", i, i, fieldVar(t.recv, f)))
 			return fmt.Sprintf("(getI %s %s)", fieldVar(t.recv, f), i)
 		}
+		if t.tg.Bytes {
+			if r, ok := t.byteIndex(x); ok {
+				return r
+			}
+		}
 		return t.fail(e, "index")
 	case *ast.BinaryExpr:
 		if t.tg.Params != nil {
@@ -337,7 +376,16 @@ func (t *mtr) expr(e ast.Expr) string {
 				return t.typed("(decide "+t.cond(e)+")", "Bool")
 			}
 		}
+		if t.tg.Bytes {
+			switch x.Op {
+			case token.AND, token.OR, token.SHL:
+				return t.byteBin(x)
+			}
+		}
 		l, r := t.expr(x.X), t.expr(x.Y)
+		if t.tg.Bytes && (t.vtype[l] != "Int" || t.vtype[r] != "Int") {
+			return t.fail(e, "arithmetic on operands of type '"+t.vtype[l]+"' and '"+t.vtype[r]+"'")
+		}
 		switch x.Op {
 		case token.ADD:
 			return t.typed("("+l+" + "+r+")", "Int")
@@ -383,6 +431,11 @@ func (t *mtr) expr(e ast.Expr) string {
 		if exprName(x.Fun) == "len" && len(x.Args) == 1 {
 			if f, ok := t.isField(x.Args[0]); ok && t.modelled(f) && t.ftype[f] == "[]any" {
 				return "(" + fieldVar(t.recv, f) + ".length : Int)"
+			}
+		}
+		if t.tg.Bytes {
+			if r, ok := t.sibExpr(x); ok {
+				return r
 			}
 		}
 		if t.tg.Elem != nil {
@@ -449,11 +502,28 @@ func (t *mtr) cond(e ast.Expr) string {
 					return "(" + os + " " + op + " " + nilName + ")"
 				}
 			}
-			l, r := t.expr(x.X), t.expr(x.Y)
+			var l, r string
+			switch {
+			case t.tg.Bytes && isUntypedConst(x.Y) && !isUntypedConst(x.X):
+				// a byte compared with an untyped constant: the constant is a byte
+				if l = t.expr(x.X); t.vtype[l] == "Nat" {
+					r = t.asByte(x.Y)
+				} else {
+					r = t.expr(x.Y)
+				}
+			case t.tg.Bytes && isUntypedConst(x.X) && !isUntypedConst(x.Y):
+				if r = t.expr(x.Y); t.vtype[r] == "Nat" {
+					l = t.asByte(x.X)
+				} else {
+					l = t.expr(x.X)
+				}
+			default:
+				l, r = t.expr(x.X), t.expr(x.Y)
+			}
 			if t.tg.Params != nil {
 				// operand types must be known and agree; `<` needs Int, `==` Int, Bool or a type with decidable equality
 				lt, rt := t.vtype[l], t.vtype[r]
-				okTy := lt == rt && (lt == "Int" || ((x.Op == token.EQL || x.Op == token.NEQ) && (lt == "Bool" || inList(t.tg.Deq, lt))))
+				okTy := lt == rt && (lt == "Int" || (t.tg.Bytes && lt == "Nat") || ((x.Op == token.EQL || x.Op == token.NEQ) && (lt == "Bool" || inList(t.tg.Deq, lt))))
 				if !okTy {
 					t.fail(e, "comparison of operands of type '"+lt+"' and '"+rt+"'")
 					return "True"
@@ -567,7 +637,10 @@ func (t *mtr) assignedVars(list []ast.Stmt, scope map[string]bool) []string {
 				if id, ok := x.Fun.(*ast.Ident); ok && id.Name == "make" && t.tg.Elem != nil {
 					add("inb") // make panics on a negative size
 				}
-				if se, ok := x.Fun.(*ast.SelectorExpr); ok && t.tg.Ptr != nil {
+				if t.tg.Bytes {
+					add("inb") // byte forms: any call may clear the flag
+				}
+				if se, ok := x.Fun.(*ast.SelectorExpr); ok && (t.tg.Ptr != nil || t.tg.Bytes) {
 					if _, acc := t.tg.Accessors[se.Sel.Name]; acc {
 						add("inb") // a dereference: may clear the flag
 					}
@@ -578,6 +651,10 @@ func (t *mtr) assignedVars(list []ast.Stmt, scope map[string]bool) []string {
 							add(fieldVar(t.recv, f))
 						}
 					}
+				}
+			case *ast.BinaryExpr:
+				if x.Op == token.SHL && t.tg.Bytes {
+					add("inb") // a negative shift count panics
 				}
 			}
 			return true
@@ -801,7 +878,12 @@ func (t *mtr) block(list []ast.Stmt, c *mctx, ind string, rest func(c *mctx, ind
 					rs = append(rs, t.typed("([] : "+t.resTy[i]+")", t.resTy[i])) // nil slice
 					continue
 				}
-				if t.tg.Elem != nil && t.aliasOfField(r) {
+				if t.tg.Bytes && t.aliasOfField(r) && !t.ptrRecv {
+					// (a value receiver: no later write of this method can reach the caller's copy through the alias)
+					if n := "the result of `" + t.src(s) + "` shares its backing array with the field: the value returned is exact, a caller that writes through it changes the field (outside the functional reading)"; !inList(t.notes, n) {
+						t.notes = append(t.notes, n)
+					}
+				} else if t.tg.Elem != nil && t.aliasOfField(r) {
 					t.fail(s, "returns a slice that aliases a field")
 					return ""
 				}
@@ -827,6 +909,20 @@ func (t *mtr) block(list []ast.Stmt, c *mctx, ind string, rest func(c *mctx, ind
 			v0, ok0 := x.Lhs[0].(*ast.Ident)
 			v1, ok1 := x.Lhs[1].(*ast.Ident)
 			call, okc := x.Rhs[0].(*ast.CallExpr)
+			if ok0 && ok1 && okc && t.tg.Bytes {
+				if pre, tys, ok := t.pkgCall(call, ind); ok {
+					c = c.clone()
+					out := pre
+					for k, v := range []*ast.Ident{v0, v1} {
+						if v.Name != "_" {
+							a := t.declare(c, v.Name)
+							t.vtype[a] = tys[k]
+							out += fmt.Sprintf("%slet %s := r'.%d\n", ind, a, k+1)
+						}
+					}
+					return out + next(c, ind)
+				}
+			}
 			if ok0 && ok1 && okc {
 				if pre, val, ok2, valTy, ok := t.twoResults(call, c, ind); ok {
 					c = c.clone()
@@ -873,6 +969,14 @@ func (t *mtr) block(list []ast.Stmt, c *mctx, ind string, rest func(c *mctx, ind
 		if len(x.Lhs) != 1 || len(x.Rhs) != 1 {
 			t.fail(s, "multi-assign")
 			return ""
+		}
+		if ie, ok := x.Lhs[0].(*ast.IndexExpr); ok && t.tg.Bytes {
+			line, ok := t.byteIndexAssign(ie, x, ind)
+			if !ok {
+				t.fail(s, "indexed assignment")
+				return ""
+			}
+			return line + next(c, ind)
 		}
 		if ie, ok := x.Lhs[0].(*ast.IndexExpr); ok && x.Tok == token.ASSIGN {
 			f, ok := t.isField(ie.X)
@@ -940,6 +1044,10 @@ func (t *mtr) block(list []ast.Stmt, c *mctx, ind string, rest func(c *mctx, ind
 		v, ok := t.lhsVar(x.X)
 		if !ok {
 			t.fail(s, "inc/dec target")
+			return ""
+		}
+		if t.tg.Bytes && t.vtype[v] != "Int" {
+			t.fail(s, "inc/dec of a value that is not an int")
 			return ""
 		}
 		op := "+"
@@ -1042,6 +1150,15 @@ func (t *mtr) block(list []ast.Stmt, c *mctx, ind string, rest func(c *mctx, ind
 			}
 		}
 		return sb.String() + next(c, ind)
+	}
+	if es, ok := s.(*ast.ExprStmt); ok && t.tg.Bytes {
+		if call, ok := es.X.(*ast.CallExpr); ok {
+			if line, ok := t.sibStmt(call, c, ind); ok {
+				return line + next(c, ind)
+			}
+		}
+		t.fail(s, "call statement")
+		return ""
 	}
 	if rs, ok := s.(*ast.RangeStmt); ok && t.tg.Elem != nil {
 		if line, ok := t.filterLoop(rs, c, ind); ok {
@@ -1195,6 +1312,22 @@ func (t *mtr) listCall(x *ast.CallExpr) (string, bool) {
 				return t.typed("("+xs+".filter (fun "+v+" => !"+d+"))", ty), true
 			}
 		}
+	case builtin(x.Fun, "append") && len(x.Args) == 2 && mut && x.Ellipsis != token.NoPos && t.tg.Bytes:
+		// append(X, make([]byte, n)...): n zero bytes; make panics if n < 0
+		xs := t.expr(x.Args[0])
+		ty := t.vtype[xs]
+		mk, ok := x.Args[1].(*ast.CallExpr)
+		if !ok || !t.isList(ty) || t.tg.Elem[ty] != "Nat" || !builtin(mk.Fun, "make") || len(mk.Args) != 2 || mk.Ellipsis != token.NoPos {
+			return "", false
+		}
+		if at, ok := mk.Args[0].(*ast.ArrayType); ok && at.Len == nil && t.lt(t.src(at)) == ty {
+			n := t.expr(mk.Args[1])
+			if t.vtype[n] != "Int" {
+				return "", false
+			}
+			t.checks = append(t.checks, fmt.Sprintf("(decide (0 ≤ %s))", n))
+			return t.typed("("+xs+" ++ List.replicate "+n+".toNat (0 : Nat))", ty), true
+		}
 	case builtin(x.Fun, "append") && len(x.Args) == 2 && mut:
 		xs := t.expr(x.Args[0])
 		if ty := t.vtype[xs]; t.isList(ty) {
@@ -1308,6 +1441,305 @@ func (t *mtr) filterLoop(rs *ast.RangeStmt, c *mctx, ind string) (string, bool) 
 	return t.flushChecks(ind) + fmt.Sprintf("%slet %s := (%s ++ %s.filter (fun %s => %s))\n", ind, yv, yv, xs, v, d), true
 }
 
+// ---- byte forms (targets with Bytes; proof agent S18: the BLS bit-field) ----
+//
+// A byte is a Lean `Nat` below 256 (every value of Lean type `Nat` built here is: elements of the `[]byte` field are
+// assumed so, literals are checked, `&` and `|` keep the bound, `<<` is followed by `% 256` — Go truncates a byte
+// shift to 8 bits).  Only `&`, `|`, `<<` and comparisons are byte operations; `+`, `^`, `>>`, `&^`, conversions are
+// outside.  An untyped constant (`1`, `1 << n`) is a byte where Go's typing rules make it one: as the other operand
+// of `&`, `|`, a comparison with a byte, or the right side of an assignment to a byte element (a non-constant shift
+// `1 << n` takes the type the `1` would have there).  A shift by a negative count panics: a check of the flag.
+// `s[i]` is `getB s i` with the check `0 ≤ i < len`; `s[i] op= v` is `setB s i (getB s i op v)`.
+// Calls of methods of the same receiver translated before: a value-receiver method with one result inside an
+// expression (the fields are unchanged, its flag is a check); a method as a statement (a pointer-receiver callee's
+// fields replace the caller's).  A method with a VALUE receiver works on a copy of the struct that shares the slice's
+// backing array: such a method is translated only if it writes to no field and calls no pointer-receiver method.
+// The slice rules of the "slice forms" apply (no two live slices share elements), except that a value-receiver
+// method may return the field itself (a note says so).
+
+// isUntypedConst: an integer literal, or `c << n` with c one (Go gives a non-constant shift the type c would have)
+func isUntypedConst(e ast.Expr) bool {
+	switch x := unparen(e).(type) {
+	case *ast.BasicLit:
+		return x.Kind == token.INT
+	case *ast.BinaryExpr:
+		return x.Op == token.SHL && isUntypedConst(x.X)
+	}
+	return false
+}
+
+// asByte: an expression in a context that makes it a byte
+func (t *mtr) asByte(e ast.Expr) string {
+	switch x := e.(type) {
+	case *ast.ParenExpr:
+		return t.typed("("+t.asByte(x.X)+")", "Nat")
+	case *ast.BasicLit:
+		if x.Kind == token.INT {
+			if n, err := strconv.ParseInt(x.Value, 0, 64); err == nil && 0 <= n && n < 256 {
+				return t.typed(fmt.Sprintf("(%d : Nat)", n), "Nat")
+			}
+		}
+		return t.fail(e, "byte literal")
+	case *ast.BinaryExpr:
+		if x.Op == token.SHL && isUntypedConst(x.X) {
+			l := t.asByte(x.X)
+			return t.shl(e, l, x.Y)
+		}
+	}
+	if isUntypedConst(e) {
+		return t.fail(e, "untyped constant")
+	}
+	s := t.expr(e)
+	if t.vtype[s] != "Nat" {
+		return t.fail(e, "a value of type '"+t.vtype[s]+"' where a byte is needed")
+	}
+	return s
+}
+
+// shl: byte `l << count`
+func (t *mtr) shl(e ast.Expr, l string, count ast.Expr) string {
+	n := t.expr(count)
+	if t.vtype[n] != "Int" {
+		return t.fail(e, "shift count of type '"+t.vtype[n]+"'")
+	}
+	if chk := fmt.Sprintf("(decide (0 ≤ %s))", n); !inList(t.checks, chk) {
+		t.checks = append(t.checks, chk)
+	}
+	return t.typed("(("+l+" <<< "+n+".toNat) % 256)", "Nat")
+}
+
+// byteBin: `&`, `|`, `<<`
+func (t *mtr) byteBin(x *ast.BinaryExpr) string {
+	if x.Op == token.SHL {
+		if isUntypedConst(x.X) {
+			return t.fail(x, "shift of an untyped constant outside a byte context")
+		}
+		l := t.expr(x.X)
+		if t.vtype[l] != "Nat" {
+			return t.fail(x, "shift of a value of type '"+t.vtype[l]+"'")
+		}
+		return t.shl(x, l, x.Y)
+	}
+	cx, cy := isUntypedConst(x.X), isUntypedConst(x.Y)
+	if cx && cy {
+		return t.fail(x, "bit operation on two untyped constants")
+	}
+	var l, r string
+	if cx {
+		r = t.asByte(x.Y)
+		l = t.asByte(x.X)
+	} else {
+		l = t.asByte(x.X)
+		r = t.asByte(x.Y)
+	}
+	op := "&&&"
+	if x.Op == token.OR {
+		op = "|||"
+	}
+	return t.typed("("+l+" "+op+" "+r+")", "Nat")
+}
+
+// byteField: a modelled field of type []byte
+func (t *mtr) byteField(e ast.Expr) (string, bool) {
+	f, ok := t.isField(e)
+	if !ok || !t.modelled(f) || t.vtype[fieldVar(t.recv, f)] != "List Nat" {
+		return "", false
+	}
+	return fieldVar(t.recv, f), true
+}
+
+func (t *mtr) rangeCheck(fv, i string) {
+	if chk := fmt.Sprintf("(decide (0 ≤ %s ∧ %s < (%s.length : Int)))", i, i, fv); !inList(t.checks, chk) {
+		t.checks = append(t.checks, chk)
+	}
+}
+
+// byteIndex: `recv.data[i]`
+func (t *mtr) byteIndex(x *ast.IndexExpr) (string, bool) {
+	fv, ok := t.byteField(x.X)
+	if !ok {
+		return "", false
+	}
+	i := t.expr(x.Index)
+	if t.vtype[i] != "Int" {
+		return "", false
+	}
+	t.rangeCheck(fv, i)
+	return t.typed(fmt.Sprintf("(getB %s %s)", fv, i), "Nat"), true
+}
+
+// byteIndexAssign: `recv.data[i] = v`, `|= v`, `&= v`
+func (t *mtr) byteIndexAssign(ie *ast.IndexExpr, x *ast.AssignStmt, ind string) (string, bool) {
+	fv, ok := t.byteField(ie.X)
+	if !ok || len(x.Rhs) != 1 {
+		return "", false
+	}
+	i := t.expr(ie.Index)
+	if t.vtype[i] != "Int" {
+		return "", false
+	}
+	v := t.asByte(x.Rhs[0])
+	switch x.Tok {
+	case token.ASSIGN:
+	case token.OR_ASSIGN:
+		v = fmt.Sprintf("((getB %s %s) ||| %s)", fv, i, v)
+	case token.AND_ASSIGN:
+		v = fmt.Sprintf("((getB %s %s) &&& %s)", fv, i, v)
+	default:
+		return "", false
+	}
+	t.rangeCheck(fv, i)
+	return t.flushChecks(ind) + fmt.Sprintf("%slet %s := (setB %s %s %s)\n", ind, fv, fv, i, v), true
+}
+
+// sibApp: the application of a method of the receiver translated before to the current fields and the arguments
+func (t *mtr) sibApp(call *ast.CallExpr, state []string) (string, sibSig, bool) {
+	se, ok := call.Fun.(*ast.SelectorExpr)
+	if !ok || call.Ellipsis != token.NoPos {
+		return "", sibSig{}, false
+	}
+	id, ok := se.X.(*ast.Ident)
+	if !ok || id.Name != t.recv {
+		return "", sibSig{}, false
+	}
+	sig, ok := t.sibB[se.Sel.Name]
+	if !ok || len(sig.args) != len(call.Args) {
+		return "", sibSig{}, false
+	}
+	if sig.ptr && !t.ptrRecv {
+		t.fail(call, "a value-receiver method calls a pointer-receiver method on its copy")
+		return "", sibSig{}, false
+	}
+	app := "(" + t.tg.Recv + "_" + se.Sel.Name + " " + strings.Join(state, " ")
+	for k, a := range call.Args {
+		as := t.expr(a)
+		if t.vtype[as] != sig.args[k] {
+			t.fail(call, "argument type of "+se.Sel.Name)
+			return "", sibSig{}, false
+		}
+		app += " " + as
+	}
+	return app + ")", sig, true
+}
+
+// sibExpr: `recv.m(args)` inside an expression: a value-receiver method with one result
+func (t *mtr) sibExpr(call *ast.CallExpr) (string, bool) {
+	if t.cur == nil {
+		return "", false
+	}
+	app, sig, ok := t.sibApp(call, t.cur.state)
+	if !ok || sig.ptr || len(sig.res) != 1 {
+		return "", false
+	}
+	if chk := app + ".2.2"; !inList(t.checks, chk) {
+		t.checks = append(t.checks, chk)
+	}
+	return t.typed(app+".2.1", sig.res[0]), true
+}
+
+// sibStmt: `recv.m(args)` as a statement
+func (t *mtr) sibStmt(call *ast.CallExpr, c *mctx, ind string) (string, bool) {
+	app, sig, ok := t.sibApp(call, c.state)
+	if !ok {
+		return "", false
+	}
+	out := t.flushChecks(ind) + fmt.Sprintf("%slet r' := %s\n", ind, app)
+	if sig.ptr {
+		for k, v := range c.state {
+			out += fmt.Sprintf("%slet %s := %s\n", ind, v, proj("r'.1", k, len(c.state)))
+		}
+	}
+	return out + fmt.Sprintf("%slet inb : Bool := inb && r'.2.2\n", ind), true
+}
+
+// pkgCall: `a, b := f(x)` for a package-level function of the file translated by the first translator
+func (t *mtr) pkgCall(call *ast.CallExpr, ind string) (string, []string, bool) {
+	id, ok := call.Fun.(*ast.Ident)
+	if !ok || id.Obj == nil || id.Obj.Kind != ast.Fun || call.Ellipsis != token.NoPos {
+		return "", nil, false
+	}
+	pf, ok := t.tg.PkgFn[id.Name]
+	fd, isFd := id.Obj.Decl.(*ast.FuncDecl)
+	if !ok || !isFd || fd.Recv != nil || len(pf.Args) != len(call.Args) || len(pf.Res) != 2 {
+		return "", nil, false
+	}
+	// the Go signature must be the one the table assumes
+	var ps, rs []string
+	for _, f := range fd.Type.Params.List {
+		for range f.Names {
+			ps = append(ps, t.lt(t.src(f.Type)))
+		}
+	}
+	if fd.Type.Results != nil {
+		for _, f := range fd.Type.Results.List {
+			n := len(f.Names)
+			if n == 0 {
+				n = 1
+			}
+			for k := 0; k < n; k++ {
+				rs = append(rs, t.lt(t.src(f.Type)))
+			}
+		}
+	}
+	if strings.Join(ps, ",") != strings.Join(pf.Args, ",") || strings.Join(rs, ",") != strings.Join(pf.Res, ",") {
+		return "", nil, false
+	}
+	app := "(" + pf.Lean
+	for k, a := range call.Args {
+		as := t.expr(a)
+		if t.vtype[as] != pf.Args[k] {
+			return "", nil, false
+		}
+		app += " " + as
+	}
+	return t.flushChecks(ind) + fmt.Sprintf("%slet r' := %s)\n", ind, app), pf.Res, true
+}
+
+// writesReceiver: an assignment to a field of the receiver (or to an element of one), or `++`/`--` on one
+func (t *mtr) writesReceiver(body *ast.BlockStmt) bool {
+	found := false
+	isRecvPart := func(e ast.Expr) bool {
+		for {
+			switch x := e.(type) {
+			case *ast.ParenExpr:
+				e = x.X
+			case *ast.IndexExpr:
+				e = x.X
+			case *ast.SliceExpr:
+				e = x.X
+			case *ast.StarExpr:
+				e = x.X
+			case *ast.SelectorExpr:
+				e = x.X
+			case *ast.Ident:
+				return x.Name == t.recv
+			default:
+				return false
+			}
+		}
+	}
+	ast.Inspect(body, func(n ast.Node) bool {
+		switch x := n.(type) {
+		case *ast.AssignStmt:
+			for _, l := range x.Lhs {
+				if isRecvPart(l) {
+					found = true
+				}
+			}
+		case *ast.IncDecStmt:
+			if isRecvPart(x.X) {
+				found = true
+			}
+		case *ast.UnaryExpr:
+			if x.Op == token.AND && isRecvPart(x.X) {
+				found = true // the address of the copy escapes
+			}
+		}
+		return !found
+	})
+	return found
+}
+
 func builtinBlank(e ast.Expr) bool {
 	id, ok := e.(*ast.Ident)
 	return ok && id.Name == "_"
@@ -1324,6 +1756,10 @@ func (t *mtr) method(fd *ast.FuncDecl) (string, error) {
 	t.ren = map[string]string{}
 	t.fresh = 0
 	t.sparam = map[string]bool{}
+	_, t.ptrRecv = fd.Recv.List[0].Type.(*ast.StarExpr)
+	if t.tg.Bytes && !t.ptrRecv && t.writesReceiver(fd.Body) {
+		return "", fmt.Errorf("a method with a value receiver writes to its copy of the struct (the slice's backing array is shared with the caller's)")
+	}
 	c := &mctx{scope: map[string]bool{"inb": true}}
 	var binders []string
 	for _, f := range t.tg.Fields {
@@ -1414,7 +1850,9 @@ func (t *mtr) method(fd *ast.FuncDecl) (string, error) {
 		for _, d := range t.tg.Deq {
 			ext += "[DecidableEq " + d + "] "
 		}
-		ext = strings.TrimRight(ext, " ") + "\n    " + strings.Join(t.tg.Params, " ") + "\n    "
+		if len(t.tg.Params) > 0 || !t.tg.Bytes {
+			ext = strings.TrimRight(ext, " ") + "\n    " + strings.Join(t.tg.Params, " ") + "\n    "
+		}
 		if len(stTypes) == 0 {
 			stTypes = []string{"Unit"}
 		}
@@ -1435,8 +1873,28 @@ func (t *mtr) method(fd *ast.FuncDecl) (string, error) {
 			}
 		}
 	}
-	fmt.Fprintf(&sb, "def %s_%s {%s : Type} %s%s :\n    (%s) × (%s) × Bool :=\n", t.tg.Recv, fd.Name.Name, strings.Join(tvs, " "), ext,
-		strings.Join(binders, " "), strings.Join(stTypes, " × "), strings.Join(resTypes, " × "))
+	if len(tvs) == 0 && t.tg.Bytes {
+		fmt.Fprintf(&sb, "def %s_%s %s%s :\n    (%s) × (%s) × Bool :=\n", t.tg.Recv, fd.Name.Name, ext,
+			strings.Join(binders, " "), strings.Join(stTypes, " × "), strings.Join(resTypes, " × "))
+	} else {
+		fmt.Fprintf(&sb, "def %s_%s {%s : Type} %s%s :\n    (%s) × (%s) × Bool :=\n", t.tg.Recv, fd.Name.Name, strings.Join(tvs, " "), ext,
+			strings.Join(binders, " "), strings.Join(stTypes, " × "), strings.Join(resTypes, " × "))
+	}
+	if t.tg.Bytes {
+		if t.sibB == nil {
+			t.sibB = map[string]sibSig{}
+		}
+		sig := sibSig{ptr: t.ptrRecv}
+		for _, f := range fd.Type.Params.List {
+			for range f.Names {
+				sig.args = append(sig.args, t.lt(t.src(f.Type)))
+			}
+		}
+		if !noResults {
+			sig.res = resTypes
+		}
+		t.sibB[fd.Name.Name] = sig
+	}
 	sb.WriteString("  let inb : Bool := true\n")
 	for _, i := range inits {
 		sb.WriteString(i)
@@ -1451,15 +1909,24 @@ func translateMethods(repo, outDir string) ([]fnOut, error) {
 		fset := token.NewFileSet()
 		f, err := parser.ParseFile(fset, filepath.Join(repo, tg.File), nil, 0)
 		var sb strings.Builder
+		for _, im := range tg.Imports {
+			fmt.Fprintf(&sb, "import %s\n", im)
+		}
 		fmt.Fprintf(&sb, "-- GENERATED by /verif/tools/gofacts (methods.go) from %s on every run; do not edit.\n", tg.File)
 		sb.WriteString("set_option linter.unusedVariables false\nnamespace HsVerif.Gen.Methods\n\n")
+		if tg.Bytes {
+			sb.WriteString("/-- Go `s[i]` on a slice of bytes (a byte is a `Nat` below 256); the in-range condition is tracked separately in `inb`. -/\n")
+			sb.WriteString("def getB (l : List Nat) (i : Int) : Nat := l.getD i.toNat 0\n")
+			sb.WriteString("/-- Go `s[i] = x` -/\n")
+			sb.WriteString("def setB (l : List Nat) (i : Int) (x : Nat) : List Nat := l.set i.toNat x\n\n")
+		}
 		if tg.Out == "Queue" {
 			sb.WriteString("/-- Go `s[i]` on a slice of `any` (nil = none); the in-range condition is tracked separately in `inb`. -/\n")
 			sb.WriteString("def getI {α : Type} (l : List (Option α)) (i : Int) : Option α := l.getD i.toNat none\n")
 			sb.WriteString("/-- Go `s[i] = x` -/\n")
 			sb.WriteString("def setI {α : Type} (l : List (Option α)) (i : Int) (x : Option α) : List (Option α) := l.set i.toNat x\n\n")
 		}
-		t := &mtr{fset: fset, tg: tg, ftype: map[string]string{}}
+		t := &mtr{fset: fset, tg: tg, ftype: map[string]string{}, file: f}
 		if err == nil {
 			for _, im := range f.Imports {
 				if im.Path.Value == `"slices"` && im.Name == nil {
